@@ -479,6 +479,11 @@ pub fn check(id: &str, tier: Tier, seed: u64, jobs: usize, max_runs: Option<u64>
     let mut reported = Vec::new();
     let _ = std::fs::create_dir_all(replay_dir());
     let budget_per_group = if groups.len() > 6 { 120 } else { 300 };
+    // all minimisation together is budgeted too (a badly broken tree can fail in dozens of classes):
+    // once it is spent, the remaining classes are reported with the scenario that found them,
+    // still replayed in a fresh process first
+    let minimise_started = Instant::now();
+    let minimise_total_s = if tier == Tier::Quick { 240.0 } else { 600.0 };
     for ((rule, sig), fs) in &groups {
         let first = fs[0];
         let known = findings.iter().find(|k| k.property == id && k.rule == *rule && k.sig == *sig && k.status == "open");
@@ -489,7 +494,8 @@ pub fn check(id: &str, tier: Tier, seed: u64, jobs: usize, max_runs: Option<u64>
         }
         // minimise, holding the violation class fixed
         let exec = execs.entry(first.wid.clone()).or_insert_with(|| Executor::new(&first.wid));
-        let (min_scn, min_res, steps) = shrink::minimise(exec, &first.scenario, rule, sig, budget_per_group, 90.0);
+        let left = (minimise_total_s - minimise_started.elapsed().as_secs_f64()).max(0.0);
+        let (min_scn, min_res, steps) = shrink::minimise(exec, &first.scenario, rule, sig, if left > 0.0 { budget_per_group } else { 0 }, left.min(90.0));
         // replay in a fresh process: must reproduce rule+sig and the same trace hash
         exec.fresh();
         let again = exec.exec(&min_scn);
